@@ -36,10 +36,15 @@ inductive Exc
 structure Params where
   escOrder   : List UInt8   -- `for value in [0x5e, 0x0d, 0x0a]` in the encoder
   unescOrder : List UInt8   -- `for value in [0x0a, 0x0d, 0x5e]` in the decoder
-  escByte    : UInt8        -- 0x5e
-  escOffset  : UInt8        -- 0x40
-  sot        : UInt8        -- 13
-  eot        : UInt8        -- 10
+  encEsc : UInt8            -- encoder: `bytes([0x5e, value + 0x40])`
+  encOff : UInt8
+  decEsc : UInt8            -- decoder: `bytes([0x5e, value + 0x40])`
+  decOff : UInt8
+  encSot : UInt8            -- encoder: `bytes([13]) + … + bytes([10])`
+  encEot : UInt8
+  decSot : UInt8            -- decoder: `msg[0] == 13 and msg[-1] == 10`
+  decEot : UInt8
+  readTerm : UInt8          -- `read_until(message_terminator=b"\n")`
   dstLo : Nat
   dstHi : Nat
   srcLo : Nat
@@ -83,18 +88,17 @@ def replace1 (v : UInt8) (r : Bytes) : Bytes → Bytes
 /-- `bs.replace(bytes([a, b]), r)`: left to right, non-overlapping, the output is not rescanned -/
 def replace2 (a b : UInt8) (r : Bytes) : Bytes → Bytes
   | [] => []
-  | x :: t =>
-    match t with
-    | [] => [x]
-    | y :: rest => if x = a ∧ y = b then r ++ replace2 a b r rest else x :: replace2 a b r t
+  | [x] => [x]
+  | x :: y :: rest =>
+    if x = a ∧ y = b then r ++ replace2 a b r rest else x :: replace2 a b r (y :: rest)
 
 /-- the escaping loop of the encoder -/
 def escape (p : Params) (bs : Bytes) : Bytes :=
-  p.escOrder.foldl (fun acc v => replace1 v [p.escByte, v + p.escOffset] acc) bs
+  p.escOrder.foldl (fun acc v => replace1 v [p.encEsc, v + p.encOff] acc) bs
 
 /-- the un-escaping loop of the decoder -/
 def unescape (p : Params) (bs : Bytes) : Bytes :=
-  p.unescOrder.foldl (fun acc v => replace2 p.escByte (v + p.escOffset) [v] acc) bs
+  p.unescOrder.foldl (fun acc v => replace2 p.decEsc (v + p.decOff) [v] acc) bs
 
 /-! ## Messages -/
 
@@ -125,12 +129,12 @@ def encode (p : Params) (m : Msg) : Except Exc Bytes :=
     if ¬ (crc / 256 < 256) then .error .valueError
     else
       let full := b ++ [UInt8.ofNat (crc / 256), UInt8.ofNat (crc % 256)]
-      .ok ([p.sot] ++ escape p full ++ [p.eot])
+      .ok ([p.encSot] ++ escape p full ++ [p.encEot])
 
 /-- `_decode_interbus_message` -/
 def decode (p : Params) (w : Bytes) : Except Exc Msg :=
   if w.length < p.minFrame then .error .valueError
-  else if ¬ (w.head? = some p.sot ∧ w.getLast? = some p.eot) then .error .valueError
+  else if ¬ (w.head? = some p.decSot ∧ w.getLast? = some p.decEot) then .error .valueError
   else
     let inner := (w.drop 1).dropLast
     let u := unescape p inner
@@ -182,7 +186,7 @@ def Tr.write (t : Tr) (bs : Bytes) : Tr := { t with written := t.written ++ [bs]
 
 /-- `_read_message` -/
 def readMessage (p : Params) (t : Tr) : Except Exc Msg × Tr :=
-  match readUntil p.eot t.buf t.script with
+  match readUntil p.readTerm t.buf t.script with
   | (none, b, s) => (.error .timeout, { t with buf := b, script := s, reads := t.reads + 1 })
   | (some m, b, s) => (decode p m, { t with buf := b, script := s, reads := t.reads + 1 })
 
